@@ -67,11 +67,15 @@ def gen_history(rng, kind, mode, faulty, maxops=40):
     # excluded input classes (notes/C10.md): `visible` overflow and Progress have no overflow
     # handling (documented upstream); a transient display must end with a frame shorter than the
     # screen (D23); keep every frame below the bound so that a fault at any point is covered too
+    # -- both classes are generated again as soon as the code under test repairs them (T3 facts)
+    F = facts()
     cap = H + 3
     if (kind == 0 and ovf == 2) or kind == 1:
         cap = H
-    if transient:
-        cap = H - 1
+    if transient and not (kind != 1 and ovf != 2 and F["live_transient_final_room"]
+                          and F["live_stop_visible_unless_transient"]):
+        cap = min(cap, H - 1)
+    restart_ok = F["live_stop_resets_shape"] and F["progress_stop_resets_shape"] and F["live_stop_restores_overflow"]
     fr = fb = []
     n = rng.choice([3, 8, 15, 25, maxops])
     f0 = rframe(rng, rheight(rng, H, cap), lw)
@@ -175,9 +179,84 @@ def gen_history(rng, kind, mode, faulty, maxops=40):
             ops.append([6])
             for _ in range(rng.choice([0, 0, 1, 2])):        # after stop: plain again
                 ops.append(rng.choice([[0, rframe(rng, 1, W)], [4], [6]]))
+            if restart_ok and rng.random() < 0.4:            # a second (third) session of the same display
+                for _ in range(rng.choice([1, 1, 2])):
+                    ops.append([5])
+                    ops += body_ops(rng.choice([1, 3, 6]))
+                    if rng.random() < 0.8:
+                        ops.append([6])
         ops = ops[:maxops]
     case = [[progress, transient, ovf, W, H, fr, fb, kind], f0, mode, pre, ops, []]
     return case
+
+
+_FACTS = {}
+
+
+def facts():
+    """T3 facts about the tree under test, as compiled into this property's model driver (op `facts`);
+    coq/gen is shared between concurrent checks, the driver is not"""
+    if not _FACTS:
+        names = ["progress_start_guarded", "live_stop_visible_unless_transient", "live_stop_restores_overflow",
+                 "live_stop_resets_shape", "progress_stop_resets_shape", "live_transient_final_room"]
+        vals = None
+        try:
+            import common
+            r = common.run_model([("facts", [])], nproc=1)[0]
+            if isinstance(r, list) and len(r) == len(names):
+                vals = r
+        except Exception:
+            vals = None
+        if vals is None:   # no driver (stand-alone use): the as-found behaviour, i.e. avoid both classes
+            vals = [0] * len(names)
+        _FACTS.update({n: bool(v) for n, v in zip(names, vals)})
+    return _FACTS
+
+
+# ---- matchers of the known findings (known_findings.json: "matcher"): exactly the input classes
+def _frames_of(arg):
+    cfg, f0, mode, pre, ops, tags = arg
+    out = [f0]
+    for o in ops:
+        if o[0] == 3:
+            out.append(o[1])
+        elif o[0] in (7, 8):
+            out.append(o[2])
+        elif o[0] == 9:
+            out.append(o[3])
+    return out
+
+
+def known_d23(op, arg):
+    """transient display that may have to stop with a frame of >= H rows (Live/Status: some frame has
+    >= H rows; Progress: the tallest frame so far has)"""
+    if op != "run" or len(arg) != 6:
+        return False
+    cfg = arg[0]
+    return bool(cfg[1]) and any(len(f) >= cfg[4] for f in _frames_of(arg))
+
+
+def known_restart(op, arg):
+    """start() takes effect again after a stop() that ended an earlier session of the same display"""
+    if op != "run" or len(arg) != 6:
+        return False
+    started, stopped_once = arg[2] == 1, False
+    for o in arg[4]:
+        if o[0] == 5 and not started:
+            if stopped_once:
+                return True
+            started = True
+        elif o[0] == 6 and started:
+            started, stopped_once = False, True
+    return False
+
+
+def known_progress_tall(op, arg):
+    """Progress (live_render.LiveRender has no overflow handling) with a frame taller than the page"""
+    if op != "run" or len(arg) != 6:
+        return False
+    cfg = arg[0]
+    return cfg[7] == 1 and any(len(f) > cfg[4] for f in _frames_of(arg))
 
 
 def with_fault(case, which, k):
